@@ -582,4 +582,268 @@ theorem enc_lag_structA (p : Params) (hp : p.Valid) (pol : Policy) (tun : Tuning
     · right; rw [hmax, hM, hf]; rfl
     · left; rw [hmax, hM, hf]; rfl
 
+/-! ### The decoder -/
+
+/-- A successful decoder step by the borrow method: non-borrowing emits, then at most one borrowed
+append of a prefix `X` of the input; it consumes at least `|X|` and at most the input. -/
+theorem dec_once_shape (p : Params) (s : DecState) (b : UInt8) (rest : List UInt8) (o : Dec.OnceOut)
+    (h : Dec.once p .borrow s b rest = .ok o) :
+    ∃ A W X, o.emits = A ++ W ++ [] ∧ (∀ e ∈ A, NoBorrow e) ∧ (W = [] ∨ W = [⟨.append X, .borrow⟩]) ∧
+      X <+: (b :: rest) ∧ X.length ≤ o.consumed ∧ o.consumed ≤ (b :: rest).length := by
+  cases s with
+  | initial =>
+    simp only [Dec.once] at h
+    split at h
+    · cases h
+    · split at h <;> (cases h; exact ⟨[], [], [], rfl, by simp, Or.inl rfl, List.nil_prefix, by simp, by simp⟩)
+  | beforeChunk ins =>
+    simp only [Dec.once] at h
+    split at h
+    · cases h
+    · cases h
+      refine ⟨(if ins then [⟨.append [FE, FD], .copy⟩] else []), [], [], by simp, ?_, Or.inl rfl, List.nil_prefix, by simp, by simp⟩
+      intro e he hb
+      cases ins
+      · cases he
+      · simp only [if_true, List.mem_singleton] at he; subst he; cases hb
+  | midHeader b0 =>
+    simp only [Dec.once] at h
+    split at h
+    · cases h
+    · split at h
+      · cases h
+      · split at h <;> (cases h; exact ⟨[], [], [], rfl, by simp, Or.inl rfl, List.nil_prefix, by simp, by simp⟩)
+  | inChunk rem term =>
+    simp only [Dec.once, Except.ok.injEq] at h
+    subst h
+    refine ⟨[], _, (b :: rest).take (min (b :: rest).length rem), by simp, by simp, Or.inr rfl,
+      List.take_prefix _ _, ?_, Nat.min_le_left _ _⟩
+    simp only [List.length_take]; omega
+
+/-- One `decode` call whose input is the held arena slice `base` (from offset `pos`). -/
+theorem decFeed_simH (p : Params) (i : Nat) (g : List UInt8) (base : Slice) (fuel : Nat) :
+    ∀ (w : World) (v : Iov) (s : DecState) (q : Pipe) (input : List UInt8) (pos : Nat),
+    w.iov i = some v → SimV w v g [] q →
+    HeldOk w v { base with off := base.off + pos, len := base.len - pos } →
+    w.sliceBytes { base with off := base.off + pos, len := base.len - pos } = input →
+    ∃ w' v' res, decFeed p .borrow fuel w i s base input pos = some (w', res) ∧ w'.iov i = some v' ∧
+      w'.exts = w.exts ∧
+      (∀ s' es, Dec.feed p .borrow fuel s input = .ok (s', es) → res = .ok s' ∧
+        SimV w' v' g [] (q.run (es.map (·.op)))) ∧
+      (∀ err es, Dec.feed p .borrow fuel s input = .error (err, es) → res = .error err ∧
+        SimV w' v' g [] (q.run (es.map (·.op)))) := by
+  induction fuel with
+  | zero =>
+    intro w v s q input pos hv h _ _
+    refine ⟨w, v, .ok s, rfl, hv, rfl, ?_, ?_⟩
+    · intro s' es he; simp only [Dec.feed, Except.ok.injEq, Prod.mk.injEq] at he
+      obtain ⟨rfl, rfl⟩ := he; exact ⟨rfl, by simpa [Pipe.run] using h⟩
+    · intro err es he; simp [Dec.feed] at he
+  | succ fuel ih =>
+    intro w v s q input pos hv h hheld hbytes
+    cases input with
+    | nil =>
+      refine ⟨w, v, .ok s, decFeed_nil .., hv, rfl, ?_, ?_⟩
+      · intro s' es he; simp only [Dec.feed, Except.ok.injEq, Prod.mk.injEq] at he
+        obtain ⟨rfl, rfl⟩ := he; exact ⟨rfl, by simpa [Pipe.run] using h⟩
+      · intro err es he; simp [Dec.feed] at he
+    | cons b rest =>
+      obtain ⟨hsrcE, _⟩ := dec_once_src p .borrow s b rest
+      have hao := Woodpile.Hcobs.DecProof.once_appendOnly p .borrow s b rest
+      cases ho : Dec.once p .borrow s b rest with
+      | error ee =>
+        obtain ⟨err, es⟩ := ee
+        rw [ho] at hao
+        obtain ⟨w1, v1, toks1, g1, g2, g3, g4, _⟩ := applyStep_simNB i g base es w v [] q hv h
+          (opsOk_appends _ _ hao) (fun e he hb _ _ => (hsrcE err es ho e he hb).elim)
+        have := applyStep_toks_appends es hao g1
+        subst this
+        have hf : decFeed p .borrow (fuel + 1) w i s base (b :: rest) pos = some (w1, .error err) := by
+          rw [decFeed_cons_error p .borrow fuel w i s base b rest pos err es ho, g1]
+        rw [decfeed_cons_error p .borrow fuel s b rest _ ho]
+        refine ⟨w1, v1, .error err, hf, g2, g4, ?_, ?_⟩
+        · intro s' es' he; cases he
+        · intro err' es' he
+          simp only [Except.error.injEq, Prod.mk.injEq] at he
+          obtain ⟨rfl, rfl⟩ := he
+          exact ⟨rfl, g3⟩
+      | ok o =>
+        rw [ho] at hao
+        obtain ⟨A, W, X, hsh, hA, hW, hX, hXc, hcl⟩ := dec_once_shape p s b rest o ho
+        have hlen : (b :: rest).length = base.len - pos := by
+          rw [← hbytes]; exact sliceBytes_chunk_length w _ hheld.reg
+        have hok : OpsOk q ((A ++ W ++ ([] : List Emit)).map (·.op)) := by rw [← hsh]; exact opsOk_appends _ _ hao
+        obtain ⟨w1, v1, toks1, g1, g2, g3, g4, g5⟩ := applyStep_simH i g _ A [] W X (b :: rest) o.consumed
+          w v [] q hv h hok hA (by simp) hW hX hXc hheld hbytes
+        rw [← hsh] at g1 g3
+        have := applyStep_toks_appends o.emits hao g1
+        subst this
+        have hsub : SubAfter { base with off := base.off + pos, len := base.len - pos } o.consumed
+            { base with off := base.off + (pos + o.consumed), len := base.len - (pos + o.consumed) } := by
+          refine ⟨rfl, ?_, ?_⟩ <;> simp only <;> omega
+        obtain ⟨f1, f2⟩ := g5 _ hsub
+        obtain ⟨w2, v2, res, k1, k2, k3, k4, k5⟩ := ih w1 v1 o.st _ ((b :: rest).drop o.consumed)
+          (pos + o.consumed) g2 g3 f1
+          (by rw [f2, slice_advance_eq, sliceBytes_trim w _ _ (by simp only; omega), hbytes])
+        have hf : decFeed p .borrow (fuel + 1) w i s base (b :: rest) pos = some (w2, res) := by
+          rw [decFeed_cons_ok p .borrow fuel w i s base b rest pos o ho, g1]; exact k1
+        rw [decfeed_cons_ok p .borrow fuel s b rest o ho]
+        refine ⟨w2, v2, res, hf, k2, k3.trans g4, ?_, ?_⟩
+        · intro s' es he
+          cases hr : Dec.feed p .borrow fuel o.st ((b :: rest).drop o.consumed) with
+          | error ee => rw [hr] at he; obtain ⟨e1, es1⟩ := ee; cases he
+          | ok se =>
+            obtain ⟨s1, es1⟩ := se
+            rw [hr] at he
+            simp only [Except.ok.injEq, Prod.mk.injEq] at he
+            obtain ⟨rfl, rfl⟩ := he
+            obtain ⟨a1, a2⟩ := k4 s1 es1 hr
+            exact ⟨a1, by simpa [List.map_append, Woodpile.Pipe.run_append] using a2⟩
+        · intro err es he
+          cases hr : Dec.feed p .borrow fuel o.st ((b :: rest).drop o.consumed) with
+          | ok se => rw [hr] at he; obtain ⟨s1, es1⟩ := se; cases he
+          | error ee =>
+            obtain ⟨e1, es1⟩ := ee
+            rw [hr] at he
+            simp only [Except.error.injEq, Prod.mk.injEq] at he
+            obtain ⟨rfl, rfl⟩ := he
+            obtain ⟨a1, a2⟩ := k5 e1 es1 hr
+            exact ⟨a1, by simpa [List.map_append, Woodpile.Pipe.run_append] using a2⟩
+
+/-- The calls (all input methods), then `Decoder::finish`; stops at the first decoding error.  A
+failed read (io error) decodes nothing and the decoder lives on. -/
+def decCallsA (p : Params) (i : Nat) : World → DecState → List UInt8 → List ACall →
+    Option (World × List UInt8 × Except DecErr Unit)
+  | w, s, dr, [] => some (w, dr, Dec.finish s)
+  | w, s, dr, .call (.feed m d) :: t =>
+    match decFeedCall p i w s m d with
+    | none => none
+    | some (w', .ok s') => decCallsA p i w' s' dr t
+    | some (w', .error e) => some (w', dr, .error e)
+  | w, s, dr, .call (.consume k) :: t =>
+    match w.iov i, w.consume i k with
+    | some v, some x => decCallsA p i x.1 s (dr ++ w.flat (v.slices.take x.2)) t
+    | _, _ => none
+  | w, s, dr, .call (.advance k) :: t =>
+    match w.iov i, w.advance i k with
+    | some v, some x => decCallsA p i x.1 s (dr ++ (w.flat v.slices).take x.2) t
+    | _, _ => none
+  | w, s, dr, .read count attempts src script :: t =>
+    match decodeRead p w i s ⟨src, script⟩ count attempts with
+    | none => none
+    | some (w', .error _, _) => decCallsA p i w' s dr t
+    | some (w', .ok (_, .ok s'), _) => decCallsA p i w' s' dr t
+    | some (w', .ok (_, .error e), _) => some (w', dr, .error e)
+
+/-- `Decoder::new()` on a fresh iovec, the calls, `finish()`. -/
+def decRunA (p : Params) (pol : Policy) (tun : Tuning) (calls : List ACall) :
+    Option (World × List UInt8 × Except DecErr Unit) :=
+  decCallsA p 0 (World.fresh pol tun) .initial [] calls
+
+theorem decCallsA_call (p : Params) (i : Nat) (calls : List Call) (w : World) (s : DecState) (dr : List UInt8) :
+    decCallsA p i w s dr (calls.map .call) = decCalls p i w s dr calls := by
+  induction calls generalizing w s dr with
+  | nil => rfl
+  | cons c t ih =>
+    cases c with
+    | feed m d =>
+      simp only [List.map_cons, decCallsA, decCalls]
+      cases decFeedCall p i w s m d with
+      | none => rfl
+      | some x =>
+        obtain ⟨w', res⟩ := x
+        cases res with
+        | ok s' => exact ih w' s' dr
+        | error e => rfl
+    | consume k =>
+      simp only [List.map_cons, decCallsA, decCalls]
+      cases w.iov i <;> cases w.consume i k <;> simp only [ih]
+    | advance k =>
+      simp only [List.map_cons, decCallsA, decCalls]
+      cases w.iov i <;> cases w.advance i k <;> simp only [ih]
+
+/-- `decode_read`: the read, the `decode` of the held slice, the anchor. -/
+theorem decodeRead_sim (p : Params) (i : Nat) (w : World) (v : Iov) (g : List UInt8) (s : DecState) (q : Pipe)
+    (count attempts : Nat) (src : List UInt8) (script : List ReadN.Ev)
+    (hv : w.iov i = some v) (h : SimV w v g [] q) :
+    ∃ w' v' res o, decodeRead p w i s ⟨src, script⟩ count attempts = some (w', res, o) ∧ w'.iov i = some v' ∧
+      (∀ k, (ReadN.readNCore ⟨src, script⟩ count attempts).res = .err k → res = .error k ∧ SimV w' v' g [] q) ∧
+      (∀ got, (ReadN.readNCore ⟨src, script⟩ count attempts).res = .ok got →
+        ∃ dres, res = .ok (got.length, dres) ∧
+          (∀ s' es, Dec.feedAll p .borrow s got = .ok (s', es) → dres = .ok s' ∧
+            SimV w' v' g [] (q.run (es.map (·.op)))) ∧
+          (∀ err es, Dec.feedAll p .borrow s got = .error (err, es) → dres = .error err ∧
+            SimV w' v' g [] (q.run (es.map (·.op))))) := by
+  obtain ⟨w1, ar', res, hrn, hv1, _, hpush, _, herr, hokr⟩ :=
+    World.readN_spec w i v ⟨src, script⟩ count attempts hv h.inv
+  have hro := readOwn_eq w i v ⟨src, script⟩ count attempts hv w1 ar' res _ hrn hv1
+  have hsim1 : SimV (w1.setIov i (some { v with arena := ar' })) { v with arena := ar' } g [] q := h.pushed0 hpush
+  have hv2 : (w1.setIov i (some { v with arena := ar' })).iov i = some { v with arena := ar' } := by simp
+  cases hres : (ReadN.readNCore ⟨src, script⟩ count attempts).res with
+  | err k =>
+    have hre := herr k hres
+    subst hre
+    refine ⟨w1.setIov i (some { v with arena := ar' }), { v with arena := ar' }, .error k,
+      ReadN.readNCore ⟨src, script⟩ count attempts, by simp only [decodeRead, hro], hv2, ?_, ?_⟩
+    · intro k' hk'; cases hk'; exact ⟨rfl, hsim1⟩
+    · intro got hg; cases hg
+  | ok got =>
+    obtain ⟨a, hra, hal, hab, hheld⟩ := hokr got hres
+    subst hra
+    by_cases hc0 : count = 0
+    · have hg0 : got = [] := by
+        subst hc0
+        have : ReadN.readNCore ⟨src, script⟩ 0 attempts = ⟨.ok [], [], ⟨src, script⟩⟩ := by simp [ReadN.readNCore]
+        rw [this] at hres
+        simp only [ReadN.ReadRes.ok.injEq] at hres
+        exact hres.symm
+      subst hg0
+      have hl0 : a.slice.len = 0 := by simpa using hal
+      refine ⟨w1.setIov i (some { v with arena := ar' }), { v with arena := ar' }, .ok (0, .ok s),
+        ReadN.readNCore ⟨src, script⟩ count attempts, ?_, hv2, ?_, ?_⟩
+      · simp only [decodeRead, hro, decodeAnchored, hab, List.length_nil, decFeed_nil, pushAnchorOf, hl0, if_true]
+      · intro k hk; cases hk
+      · intro got' hg'
+        cases hg'
+        refine ⟨.ok s, rfl, ?_, ?_⟩
+        · intro s' es he
+          simp only [Dec.feedAll, Dec.feed, Except.ok.injEq, Prod.mk.injEq] at he
+          obtain ⟨rfl, rfl⟩ := he
+          exact ⟨rfl, by simpa [Pipe.run] using hsim1⟩
+        · intro err es he; simp [Dec.feedAll, Dec.feed] at he
+    · obtain ⟨hheld1, c, hanc, hreg⟩ := hheld (by omega)
+      have hb0 : ({ a.slice with off := a.slice.off + 0, len := a.slice.len - 0 } : Slice) = a.slice := by simp
+      obtain ⟨w3, v3, dres, k1, k2, _, k4, k5⟩ := decFeed_simH p i g a.slice (got.length + 1) _ _ s q got 0 hv2 hsim1
+        (by rw [hb0]; exact hheld1) (by rw [hb0]; exact hab)
+      by_cases hl0 : a.slice.len = 0
+      · refine ⟨w3, v3, .ok (got.length, dres), ReadN.readNCore ⟨src, script⟩ count attempts, ?_, k2, ?_, ?_⟩
+        · have hg0 : got.length = 0 := by omega
+          simp only [decodeRead, hro, decodeAnchored, hab, k1, pushAnchorOf, hal]
+          simp only [hg0, if_true]
+        · intro k hk; cases hk
+        · intro got' hg'
+          cases hg'
+          exact ⟨dres, rfl, k4, k5⟩
+      · have hiov3 : IovInv w3 v3 := by
+          cases hf : Dec.feed p .borrow (got.length + 1) s got with
+          | ok se => obtain ⟨s1, es1⟩ := se; exact (k4 s1 es1 hf).2.inv
+          | error ee => obtain ⟨e1, es1⟩ := ee; exact (k5 e1 es1 hf).2.inv
+        obtain ⟨m1, m2⟩ := World.pushAnchor_spec w3 i v3 a.anchor k2 hiov3
+        refine ⟨w3.setIov i (some { v3 with anchors := v3.anchors ++ [{ a.anchor with count := 0 }] }),
+          { v3 with anchors := v3.anchors ++ [{ a.anchor with count := 0 }] }, .ok (got.length, dres),
+          ReadN.readNCore ⟨src, script⟩ count attempts, ?_, World.iov_setIov w3 i _, ?_, ?_⟩
+        · have hg0 : ¬ got.length = 0 := by omega
+          simp only [decodeRead, hro, decodeAnchored, hab, k1, pushAnchorOf, hal]
+          simp only [hg0, if_false, m1]
+        · intro k hk; cases hk
+        · intro got' hg'
+          cases hg'
+          refine ⟨dres, rfl, ?_, ?_⟩
+          · intro s' es he
+            obtain ⟨a1, a2⟩ := k4 s' es he
+            exact ⟨a1, a2.pushed0 m2⟩
+          · intro err es he
+            obtain ⟨a1, a2⟩ := k5 err es he
+            exact ⟨a1, a2.pushed0 m2⟩
+
 end Woodpile.EncWorld
